@@ -238,3 +238,16 @@ PROPS['C16'] = {
     'assumptions': A_COMMON,
     'not_decided': ['each of the (2n-5)!! / (2n-3)!! topologies exactly once (combinatorial bijection)', 'uniqueness of generated tip names (strconv.Itoa injective: trusted)'],
 }
+
+PROPS['C06'] = {
+    'level': 'proof', 'claimed': True,
+    'claim': 'unbounded proofs on the real code: RemoveTips calls removeTip exactly on the tips whose membership in the given name list differs from `revert` (names absent from the tree have no effect because the loop ranges over the tips), refuses a listed node that is not a tip, and rebuilds the tip-name index after the last removal and before the branch indexes, so look-ups by name reflect the pruned tip set; removeTip, when the inner node is left with two neighbours and is suppressed, gives the merging branch max(0,l1)+max(0,l2) exactly when either length is present (absent otherwise); delNode kills exactly the given node and only its own branches lose their ends',
+    'level_note': INVNOTE + '; the support rule and the orientation of the merging branch after the degree-one chain loop are not yet discharged (they need symmetric adjacency as a loop invariant) and are not claimed; induced-subtree consequences (splits are the restrictions, path lengths unchanged) follow per removed tip from graph lemmas L5/L3 (A-GRAPH)',
+    'packages': ['./tree', './hashmap'],
+    'functions': [('(*tree.Tree).removeTip', {'match': [r'^return\.merged_branch_carries_the_summed_length', r'^post\.the_name_index']}),
+                  ('(*tree.Tree).RemoveTips', {'match': [r'^callsite', r'^post', r'^inv', r'^nil', r'^bounds']}),
+                  '(*tree.Tree).delNode', '(*tree.Node).delNeighbor', '(*tree.Node).NodeIndex'],
+    'trusted_base': TB_COMMON,
+    'assumptions': A_COMMON,
+    'not_decided': ['induced-subtree theorem as a whole (A-GRAPH)', 'cmd/prune.go specificTips'],
+}
